@@ -35,7 +35,7 @@ def shift(job, text, pos, full, r, out):
     if pos == 0 or not job.get('shift'):
         return None
     parse = job['_parse']
-    o2 = impl.run(parse, text[pos:], 0, full, spans=True, time_limit=1.0)
+    o2 = impl.run(parse, text[pos:], 0, full, spans=True, time_limit=1.0, patient=True)
     if o2['kind'] != out['kind']:
         return 'shift-kind'
     if out['kind'] in ('RET', 'PARTIAL'):
